@@ -722,6 +722,22 @@ example : readAll .sb .little (writeAll .sb .little [.scalar .i16 0x0102, .array
 `readAllFrag` is `readAll .sock` with every `read(p, n)` going through `sockRecvLoop` over the pending pieces — what
 the driver runs after `readerf`. `Live ps`: every piece holds at least one byte. -/
 
+/-- G: the `return` after the receive loop of `Socket_::read(void*, int)` names the sum of the chunks (not the last chunk) -/
+theorem gen_socket_read_returns_total : sockReadRet = .total := by decide
+
+/-- `ByteArray Socket_::read(int n)` (the array is cut to what `read(p, n)` returned): the first `n` bytes of the stream
+    whatever the pieces -/
+theorem socket_read_bytes_spec (ps : List (List UInt8)) (h : AslProofs.StreamFrag.Live ps) (n : Nat) :
+    (sockReadBytes n ps).1 = ps.flatten.take n ∧ (sockReadBytes n ps).2.flatten = ps.flatten.drop n := by
+  rw [AslProofs.StreamFrag.sockReadBytes_eq]
+  exact ⟨(AslProofs.StreamFrag.sockRead_spec ps h n).1, (AslProofs.StreamFrag.sockRead_spec ps h n).2.1⟩
+
+/-- the model tells the variants apart: the size of the LAST chunk differs between two partitions of one stream, so a
+    `read` returning it would make `read(n)` depend on the pieces -/
+theorem socket_last_chunk_depends_on_pieces :
+    sockRecvLast 4 [[1, 2, 3], [4]] ≠ sockRecvLast 4 [[1, 2, 3, 4]] ∧
+    ([[1, 2, 3], [4]] : List (List UInt8)).flatten = [[1, 2, 3, 4]].flatten := by decide
+
 /-- one `Socket_::read(p, n)`: the first `n` bytes of the stream whatever the pieces, the rest stays pending -/
 theorem socket_recv_loop_spec (ps : List (List UInt8)) (h : AslProofs.StreamFrag.Live ps) (n : Nat) :
     (sockRead n ps).1 = ps.flatten.take n ∧ (sockRead n ps).2.flatten = ps.flatten.drop n :=
